@@ -39,7 +39,7 @@ MAKE = "PATH=/venv/bin:$PATH make ACC=pycc LANGUAGE=%s PYTHON=%s pycc"
 def _build(lang):
     d = tempfile.mkdtemp(prefix="pgv-build-")
     dst = os.path.join(d, "repo")
-    shutil.copytree(bootstrap.REPO, dst, ignore=shutil.ignore_patterns(".git", "__pycache__", "*.pyc", "*.so", "*.o", "*.mod",
+    shutil.copytree(bootstrap.REPO, dst, symlinks=True, ignore=shutil.ignore_patterns(".git", "__pycache__", "*.pyc", "*.so", "*.o", "*.mod",
                                                                         "__pyccel__", "pygyro.egg-info"))
     r = subprocess.run(MAKE % (lang, bootstrap.PYTHON), shell=True, cwd=dst, capture_output=True, text=True)
     return d, dst, r
